@@ -541,7 +541,7 @@ def pad_terms(g, total):
     (<eof> and the error token come last), so totals of 62, 63, 126, 127 put those two at machine-word boundaries"""
     g = clone(g)
     used = {t.text for t in g.terms}
-    pool = [c for c in list(WIDE_CHARS) + list('!#$%&*+,-/:;<=>?@^_`|~') if c not in used and c not in g.nts and all(c != u[0] for u in used)]
+    pool = [c for c in dict.fromkeys(list(WIDE_CHARS) + list('!#$%&*+,-/:;<=>?@^_`|~')) if c not in used and c not in g.nts and all(c != u[0] for u in used)]
     for c in pool:
         if len(g.terms) >= total: break
         g.terms.append(Term('c', c))
